@@ -369,6 +369,9 @@ func TestC36(t *testing.T) {
 	if os.Getenv("H2B_C36_SKIP_SWEEP") != "" { // development aid for mutant testing of the generated part
 		shapes = nil
 	}
+	if sh := os.Getenv("VERIF_SHARD"); sh != "" && sh != "0" { // the sweep is deterministic: one shard runs it
+		shapes = nil
+	}
 	for _, sh := range shapes {
 		var walk func(prefix []c36Op)
 		walk = func(prefix []c36Op) {
